@@ -722,7 +722,8 @@ class HTTPConnectionPool(ConnectionPool, RequestMethods):
         if url.startswith("/"):
             url = to_str(_encode_target(url))
         else:
-            url = to_str(parsed_url.url)
+            # A fragment is never part of the request target.
+            url = to_str(parsed_url._replace(fragment=None).url)
 
         conn = None
 
